@@ -349,6 +349,20 @@ def run(ctx):
         if v:
             fails.append({"cfg": list(cfg), "wiring": wiring, "m0": 1000, "seq": seq, "violation": v})
     ctx.count("fine_approach_sequences", len(fine))
+    # ---- sync periods above 32767 s (the full uint16 range of the constructor argument): a success, the whole period in
+    # 60 s steps, a failed re-sync, and the period again; the retry after the failure must wait for the sync period ----
+    for cfg in ((40000, 5, 1000), (65535, 5, 1000)):
+        n60 = cfg[0] * 1000 // 60000 + 2
+        # (the period used after a failure is recomputed only when the wait after that failure ends, so two failures are needed)
+        seq = ([(1, False, 0), (1, True, 100000)] + [(60000, False, 0)] * n60 + [(1, True, I32MIN)] + [(60000, False, 0)] * (n60 + 2) +
+               [(1, True, I32MIN)] + [(60000, False, 0)] * (n60 + 2))
+        v, ck = run_sequence(drv, cfg, 1, 1000, seq)
+        ctx.evaluations += len(seq)
+        ctx.count("long_period_sequences")
+        if v:
+            fails.append({"cfg": list(cfg), "wiring": 1, "m0": 1000, "seq": seq, "violation": v})
+        elif ck.events.count("send") < 4:
+            raise vt.HarnessError("long-period sequence did not reach the fourth request: %r" % ck.events)
     # ---- Hypothesis generated longer histories ----
     hstats = {"n": 0, "fail_after_success": 0, "late_ready_after_timeout": 0, "saturation": 0, "noref_reads_after_65s_of_loops": 0}
     hfails = []
